@@ -789,20 +789,39 @@ def _run(ctx):
         for t in trains:
             inp += [len(t)] + [a for a, _ in t] + [b_ for _, b_ in t]
         add(inp, [1, len(res)] + res, desc)
-    # F-C20-d: non-dyadic float chunk sizes — fl(k c) + c != fl((k+1) c): a spike on the integer sample k c is counted
-    # twice or dropped.  Specific matcher; the exact rational model does not apply there.
-    for c, ksp in ((1.1, 20), (2.2, 15), (333.3, 10), (0.7, 20)):
-        s_ = int(round(c * ksp))
-        case = {"trains": [[(s_, 0)], [(s_, 0), (s_ + 40, 1)]], "xbin": 1, "ybin": 1, "nchan": 2, "chunk": c, "fs": 30000}
-        desc = dict(case, fn="spikes_venn2", non_dyadic_chunk=True)
-        res = venn_call(case)
-        count("venn_nondyadic_chunk_cases")
-        if isinstance(res, tuple):
-            ctx.fail("spikes_venn: %s with the chunk size %s" % (res[1], c), desc, {"kind": "venn_exception"})
-            continue
+    # non-dyadic float chunk sizes (fix bbf5c54: both edges of a chunk come from the same product, so chunk k =
+    # [fl(k c), fl((k+1) c)) and consecutive chunks tile for ANY float): spikes on every integer sample equal to k c.
+    # Oracle only (the exact rational model applies to exact products; fl(k c) may round across the integer).
+    nd_cases = [(1.1, 1, 2), (2.2, 1, 2), (333.3, 1, 2), (0.7, 1, 2), (3.3, 2, 4), (33.3, 3, 4), (599999.4, 1000, 4)]
+    for c, xb_, nchan_ in nd_cases:
+        ks = [k_ for k_ in range(1, 61) if abs(k_ * c - round(k_ * c)) < 1e-6 and k_ * c < 4e6][:8]
+        on = [int(round(k_ * c)) for k_ in ks]
+        for variant in range(3):
+            t0 = [(s_, variant % nchan_) for s_ in on]
+            t1 = [(s_, variant % nchan_) for s_ in on[::2]] + [(on[-1] + 40, 1)]
+            t2 = [(s_ + d_, 0) for s_ in on[:3] for d_ in (-1, 0, 1) if s_ + d_ >= 0]
+            trains = [sorted(t0), sorted(t1)] + ([sorted(t2)] if variant == 2 else [])
+            case = {"trains": trains, "xbin": xb_, "ybin": 1, "nchan": nchan_, "chunk": c, "fs": 30000}
+            desc = dict(case, fn="spikes_venn%d" % len(trains), non_dyadic_chunk=True)
+            res = venn_call(case)
+            count("venn_nondyadic_chunk_cases")
+            if isinstance(res, tuple):
+                ctx.fail("spikes_venn: %s with the chunk size %s" % (res[1], c), desc, {"kind": "venn_exception"})
+                continue
+            for b in venn_oracle(case, res):
+                ctx.fail("venn (non-dyadic chunk size %s, spikes on the samples k x chunk %s): %s" % (c, on[:4], b), desc,
+                         {"kind": "venn_conservation"})
+    # the default chunk 20 * fs with a non-dyadic rate: 5 x 599999.4 = 2999997
+    case = {"trains": [[(2999997, 3), (2999998, 3)], [(2999996, 3), (2999997, 3), (3000100, 1)]], "xbin": 1000, "ybin": 2,
+            "nchan": 8, "chunk": 0, "fs": 29999.97}
+    res = venn_call(case)
+    count("venn_nondyadic_chunk_cases")
+    desc = dict(case, fn="spikes_venn2", non_dyadic_chunk=True, default_chunk=True)
+    if isinstance(res, tuple):
+        ctx.fail("spikes_venn: %s with fs = 29999.97 and the default chunk size" % (res[1],), desc, {"kind": "venn_exception"})
+    else:
         for b in venn_oracle(case, res):
-            ctx.fail("venn (non-dyadic chunk size %s, spike on sample %d = %d x chunk): %s" % (c, s_, ksp, b), desc,
-                     {"kind": "venn_float_chunk_rounding"})
+            ctx.fail("venn (default chunk, fs = 29999.97): %s" % b, desc, {"kind": "venn_conservation"})
     # realistic sizes (defaults; oracle only — the model would enumerate 5e6 bins per chunk)
     for k in range(6 if T else 2):
         n = 2 + k % 2
